@@ -7,7 +7,8 @@
 (***************************************************************************)
 EXTENDS GT
 
-CONSTANTS Classes, Dims, Dks, Das, Rs, Offs, JointQ     \* JointQ: object 1 is a density over (y, x) (for integrate_log_conditional)
+CONSTANTS Classes, Dims, Dks, Das, Rs, Offs, JointQ,
+          Bound      \* TRUE: also the ingredients of the variational lower bound at given expansion points (C17, clause 2)     \* JointQ: object 1 is a density over (y, x) (for integrate_log_conditional)
 
 n == Len(hist)
 Init == heap = <<>> /\ hist = <<>>
@@ -34,6 +35,9 @@ Next ==
                  \/ (IsFeat(heap[2]) /\ \E via \in {"callable", "y"} : AFeatIntLogCondY(2, 1, 1, via))
                  \/ (IsHet(heap[2]) /\ \E N \in {1, 3} : AHetCondOnX(2, N, 0))
                  \/ (IsHet(heap[2]) /\ HDa(heap[2]) = HDy(heap[2]) /\ NumR(heap[1]) = 1 /\ \E s \in {0, 1} : AHetIntLogCondY(2, 1, s))
+                 \/ (Bound /\ IsHet(heap[2]) /\ NumR(heap[1]) = 1 /\ \E u \in 1..HDk(heap[2]), oi \in 1..Len(OMEGAS) : AHetK(2, 1, u, oi))
+                 \/ (Bound /\ IsHet(heap[2]) /\ \E u \in 1..HDk(heap[2]), oi \in 1..Len(OMEGAS) : AHetLBI(2, 1, u, oi, 1))
+                 \/ (Bound /\ IsHet(heap[2]) /\ \E s \in {0, 1} : AHetLBAssembly(2, 1, s))
                  \/ \E k \in {"marginal", "joint", "conditional"} :
                        IF IsFeat(heap[2]) THEN AFeatTransform(k, 2, 1) ELSE AHetTransform(k, 2, 1))
 
